@@ -37,8 +37,11 @@ class DensityData:
                 logger.info("Previous sense swapped data exists, reading...")
                 self.data_frame = h5py.File(swapped_filename, "r")
             else:
-                gene_data.data_frame["Strand"].replace({"+": 1, "-": 0}, inplace=True)
-                strands_as_numpy = gene_data.data_frame.Strand.to_numpy(copy=False)
+                # NB the caller's frame is not modified, the antisense genes
+                # are the ones with a '-' strand
+                strands_as_numpy = np.where(
+                    gene_data.data_frame.Strand.to_numpy(copy=False) == "-", 0, 1
+                )
 
                 logger.info("Writing new sense swapped DensityData...")
                 # We need to swap values, prepare a new file, and then write to
